@@ -33,7 +33,8 @@ ASSUMPTIONS = [
     'relative to the others; a coroutine started from inside a body during '
     'frame f may take its first step in f or f+1; a body that raises ends '
     'its coroutine and the frame (the other coroutines are judged again '
-    'from the next frame on, relative order not judged across that frame)',
+    'from the next frame on; the relative order of the survivors is compared '
+    'with the last complete frame)',
     'dt and wait values are dyadic rationals (exactly representable)',
 ]
 
@@ -83,6 +84,10 @@ def gen_one(rng, tier, scale=False):
         if rng.random() < 0.3:
             # equal deadlines / all waits expiring together
             script = [rng.choice([1, 2, 0.5])] * rng.randint(1, 4)
+        elif not scale and rng.random() < 0.3:
+            # steady coroutines: runnable in every frame for a long while
+            script = [rng.choice([None, None, 0, -1])
+                      for _ in range(rng.randint(3, 14))]
         coros.append({'start': rng.randrange(max(1, nframes // 2))
                       if rng.random() < 0.9 else None, 'script': script})
     case = {'coros': coros, 'dts': dts}
@@ -100,6 +105,22 @@ def gen_cases(tier, seed):
     for i in range(2 if tier == 'quick' else 32):
         yield gen_one(random.Random(f'C08/scale/{seed}/{tier}/{i}'), tier,
                       scale=True)
+    # several coroutines that run every frame around one that raises
+    for i in range(300 if tier == 'quick' else 16 * 500):
+        rng = random.Random(f'C08/raise/{seed}/{tier}/{i}')
+        nc = rng.randint(3, 7)
+        coros = [{'start': 0 if rng.random() < 0.8 else rng.randint(0, 2),
+                  'script': [rng.choice([None, None, 0])
+                             for _ in range(rng.randint(6, 12))]}
+                 for _ in range(nc)]
+        victim = coros[rng.randrange(nc)]
+        victim['script'] = victim['script'][:rng.randint(1, 4)] \
+            + [{'raise': True}]
+        if rng.random() < 0.4:
+            other = rng.choice([c for c in coros if c is not victim])
+            other['script'][rng.randint(0, 3)] = 1.5
+        yield {'coros': coros,
+               'dts': [rng.choice([0.5, 1]) for _ in range(10)]}
     n = 8000 if tier == 'quick' else 16 * 20000
     for i in range(n):
         yield gen_one(random.Random(f'C08/{seed}/{tier}/{i}'), tier)
@@ -232,9 +253,7 @@ def run_case(case):
         if res.divs:
             break
         # relative order of the coroutines that stayed runnable
-        if failed:
-            prev_order = None
-        if prev_order is not None:
+        if prev_order is not None and not failed:
             # only coroutines that were already settled in the previous frame
             # (runnable at its start: neither woken nor started in it - their
             # position in that frame is a don't-care) and stayed runnable
@@ -269,12 +288,17 @@ def run_case(case):
         for uid in spawned_now:
             if uid not in seen:
                 res.stats['dontcare_spawn_next_frame'] += 1
-        prev_settled = set(prev_stay)
-        prev_order, prev_stay = order, stay
         if failed:
-            prev_order, prev_stay, prev_settled = None, set(), set()
+            # the frame was abandoned half way: the order reference stays
+            # the last complete frame; coroutines that left the runnable
+            # state (or ended) in the part that did run drop out of it
+            prev_stay = {u for u in prev_stay
+                         if model[u]['state'] == 'runnable'}
             res.tags['runnable_left_behind_by_failed_frame'].add(
                 min(3, len([u for u in expected if u not in seen])))
+        else:
+            prev_settled = set(prev_stay)
+            prev_order, prev_stay = order, stay
         nwait = len(waits_started)
         res.tags['simultaneous_waiters'].add(min(nwait, 6))
         if nwait >= 2:
